@@ -408,3 +408,10 @@ func VerifParseValue(s string) (interface{}, error) {
 	}
 	return verifParseScalar(s)
 }
+
+// VerifCommands returns the registered command table.
+func (server *SugarDB) VerifCommands() []internal.Command {
+	server.commandsRWMut.RLock()
+	defer server.commandsRWMut.RUnlock()
+	return append([]internal.Command{}, server.commands...)
+}
